@@ -1,5 +1,112 @@
 package c20
 
-// webScenarios: mixes of concurrent web requests, each compared with its solo
-// response (S2). Added in web.go once the web harness exists.
-func webScenarios() []Scenario { return nil }
+import (
+	"fmt"
+	"net/http"
+	"os"
+	"path/filepath"
+	"strings"
+
+	"github.com/google/pprof/internal/driver"
+	"github.com/google/pprof/internal/verifrt"
+	"github.com/google/pprof/verifh/drive"
+)
+
+func settingsFile() string { return filepath.Join(drive.Sandbox(), "cfg", "pprof", "settings.json") }
+
+func webUI() map[string]http.Handler {
+	var h map[string]http.Handler
+	verifrt.Quiet(func() {
+		os.RemoveAll(filepath.Dir(settingsFile()))
+		data := drive.Encode(tinyProfile())
+		r := drive.Web(map[string][]byte{"p": data}, []string{"p"})
+		h = r.Handlers
+	})
+	return h
+}
+
+func request(h map[string]http.Handler, target string) func() string {
+	return func() string {
+		code, body, pan := drive.Get(h, "GET", target)
+		if pan != nil {
+			return fmt.Sprintf("PANIC %v", pan)
+		}
+		return fmt.Sprintf("%d\n%s", code, body)
+	}
+}
+
+func savedNames() string {
+	b, err := os.ReadFile(settingsFile())
+	if err != nil {
+		return "<absent>"
+	}
+	var names []string
+	for _, part := range strings.Split(string(b), `"name": "`)[1:] {
+		names = append(names, part[:strings.IndexByte(part, '"')])
+	}
+	return strings.Join(names, ",")
+}
+
+// webScenarios: S2 mixes of concurrent web requests (read-only mixes: every
+// response equals its solo response; save/delete mixes: the settings file ends
+// in a state some sequential order produces) and S3 option get/set.
+func webScenarios() []Scenario {
+	var out []Scenario
+	out = append(out, Scenario{Name: "S2/top-flamegraph-download", MaxPreempt: 1, Setup: func() ([]func() string, func() string) {
+		h := webUI()
+		return []func() string{request(h, "/top?f=f"), request(h, "/flamegraph"), request(h, "/download")}, nil
+	}})
+	out = append(out, Scenario{Name: "S2/peek-top-with-url-options", MaxPreempt: 1, Setup: func() ([]func() string, func() string) {
+		h := webUI()
+		return []func() string{request(h, "/peek?f=f"), request(h, "/top?g=lines&n=1")}, nil
+	}})
+	out = append(out, Scenario{Name: "S2/saveconfig-saveconfig", Setup: func() ([]func() string, func() string) {
+		h := webUI()
+		return []func() string{request(h, "/saveconfig?config=A&f=f"), request(h, "/saveconfig?config=B&n=7")}, savedNames
+	}, Accept: func(res []string, final string) string {
+		for _, r := range res {
+			if !strings.HasPrefix(r, "200") {
+				return "a save request failed: " + strings.SplitN(r, "\n", 2)[0]
+			}
+		}
+		if final != "A,B" && final != "B,A" {
+			return "after two concurrent saves the settings hold: " + final
+		}
+		return ""
+	}})
+	out = append(out, Scenario{Name: "S2/saveconfig-deleteconfig", Setup: func() ([]func() string, func() string) {
+		h := webUI()
+		verifrt.Quiet(func() { request(h, "/saveconfig?config=A&f=f")() })
+		return []func() string{request(h, "/saveconfig?config=B&n=7"), request(h, "/deleteconfig?config=A")}, savedNames
+	}, Accept: func(res []string, final string) string {
+		if final != "B" {
+			return "after save(B) || delete(A) on [A] the settings hold: " + final
+		}
+		return ""
+	}})
+	// S3: options are read while being set
+	out = append(out, Scenario{Name: "S3/configure-configure-read", Setup: func() ([]func() string, func() string) {
+		verifrt.Quiet(func() { driver.VerifReset() })
+		return []func() string{
+				func() string { return fmt.Sprint(driver.VerifConfigure("focus", "a")) },
+				func() string { return fmt.Sprint(driver.VerifConfigure("nodecount", "7")) },
+				func() string {
+					s := driver.VerifConfigState()
+					f, n := strings.Contains(s, "focus=a;"), strings.Contains(s, "nodecount=7;")
+					return fmt.Sprint(f, n)
+				},
+			}, func() string {
+				s := driver.VerifConfigState()
+				return fmt.Sprint(strings.Contains(s, "focus=a;"), strings.Contains(s, "nodecount=7;"))
+			}
+	}, Accept: func(res []string, final string) string {
+		if res[0] != "<nil>" || res[1] != "<nil>" {
+			return "configure failed: " + res[0] + " " + res[1]
+		}
+		if final != "true true" {
+			return "an option assignment was lost: focus/nodecount set = " + final
+		}
+		return ""
+	}})
+	return out
+}
